@@ -433,6 +433,26 @@ func ruleSortedLock(c *Ctx, r *Reporter) {
 				good = false
 			}
 		}
+		// independence: a transaction that is still waiting for one of its tables must not sit on the
+		// others (its doc comment says it does). Acquiring in a loop of blocking Lock() calls holds the
+		// lower-numbered locks while sleeping on a busy one; a try-lock/back-off scheme would not.
+		{
+			blockingLoop := false
+			var at ssa.Instruction
+			for _, l := range locks {
+				in := l.(ssa.Instruction)
+				if blockReaches(in.Block(), in.Block()) {
+					blockingLoop = true
+					at = in
+				}
+			}
+			hasTry := len(c.callsNamed(fn, "iface:internal.SortableMutex.TryLock")) > 0
+			p := c.posStr(fn.Pos())
+			if at != nil {
+				p = c.posStr(instrPos(at))
+			}
+			r.check(!blockingLoop || hasTry, "internal.(SortableMutexes).Lock|does not hold acquired locks while waiting for a busy one", p, "the bulk acquire backs off instead of sleeping with locks held", "the bulk acquire sleeps on a busy table lock while holding the locks it already took: with T1 = WriteTxn(b) open, a queued T2 = WriteTxn(b, a) holds a, and T3 = WriteTxn(a) waits for T1 although they share no table")
+		}
 		// comparator uses Seq()
 		cmpOK := false
 		if sortCall != nil && len(sortCall.Common().Args) > 1 {
